@@ -97,8 +97,16 @@ package workceptor
 //@   ensures EMPTY: signature == "" ==> result != nil
 //@   ensures NOKEY: old(w.VerifyingKey) == "" ==> result != nil
 //@   ensures TRUSTED_NAME: (result == nil) == sigok(w, signature)
-//@   site call VerifyAudience AUDREQUIRED: requires arg2
+//@   site call VerifyAudience AUDREQUIRED: requires arg2 && arg0 == claims && arg1 == lastcall("NodeID", 0)
 //@   site call ParseWithClaims TOKEN: requires arg0 == signature && signature != "" && w.VerifyingKey != ""
+//@   site call ParseWithClaims DEFAULTVALIDATION: requires calleeis("github.com/golang-jwt/jwt/v4.ParseWithClaims")
+//@   site call LoadPublicKey CONFIGUREDKEY: requires arg0 == w.VerifyingKey
+//@   ensures ACCEPTONLY: result == nil ==> lastcall("ParseWithClaims", 1) == nil && lastcall("ParseWithClaims", 0) != nil && lastcall("ParseWithClaims", 0).Valid && lastcall("VerifyAudience", 0) && lastcall("LoadPublicKey", 1) == nil
+
+// the key handed to the parser is the configured public key, for every token
+//@ func (*Workceptor).VerifySignature$1
+//@   tags C15
+//@   ensures THEKEY: result.1 == nil && result.0 == box(rsaPublicKey)
 
 //@ func (*workceptorCommand).processSignature
 //@   tags C15
@@ -134,21 +142,30 @@ package workceptor
 
 // ---- C14: every access to the status file happens inside the file lock, in the order read -> callback -> rewrite
 
+// the lock is the file "<status file>.lock", opened exclusively through lockedfile (flock semantics assumed)
 //@ func (*StatusFileData).lockStatusFile
 //@   tags C14
-//@   trusted
 //@   modifies nothing
-//@   ensures PAIR: (result.1 != nil ==> result.0 == nil) && (result.1 == nil ==> result.0 != nil)
+//@   site call OpenFile LOCKFILE: [C14] requires arg0 == filename + ".lock" && arg1 == 577
+//@   ensures PAIR: [C14] (result.1 != nil ==> result.0 == nil) && (result.1 == nil ==> result.0 != nil)
 
 //@ func (*StatusFileData).unlockStatusFile
 //@   tags C14
-//@   trusted
+//@   requires lockFile != nil
 //@   modifies nothing
+//@   ghostflag released set call:Close
+//@   site call Close THELOCK: [C14] requires arg0 == lockFile
+//@   ensures RELEASED: [C14] flag("released")
 
+// the record written is the JSON of this status followed by a newline, in one Write
 //@ func (*StatusFileData).saveToFile
-//@   tags C14
-//@   trusted
+//@   tags C14 C04
+//@   requires sfd != nil && file != nil
 //@   modifies nothing
+//@   ghostflag written set call:Write
+//@   site call Marshal THISRECORD: [C14 C04] requires arg0 == box(sfd)
+//@   site call Write WHOLE: [C14 C04] requires !flag("written") && lastcall("Marshal", 1) == nil && len(arg0) == len(lastcall("Marshal", 0)) + 1
+//@   ensures WRITTEN: [C14 C04] result == nil ==> flag("written")
 
 //@ func (*StatusFileData).loadFromFile
 //@   tags C14
@@ -247,11 +264,12 @@ package workceptor
 // AllocateUnit: generation of the ID and its insertion are one critical section under the write lock, the key
 // inserted is the generated ID and it is not yet a key.
 //@ func (*Workceptor).AllocateUnit
-//@   tags C13 C19
+//@   tags C13 C19 C15
 //@   requires w != nil
 //@   site mapupdate Workceptor.activeUnits UNIQUE: [C13] requires !(key in w.activeUnits) && key == lastcall("generateUnitID", 0) && lastcall("generateUnitID", 1) == nil
 //@        && held(w.activeUnitsLock) == 2 && value == worker && lastcall("Save", 0) == nil
 //@   site call generateUnitID INSIDE: [C13] requires held(w.activeUnitsLock) == 2 && !arg1
+//@   site call newWorkerFunc EXACTTYPE: [C15 C13] requires arg3 == old(workTypeName) && arg1 == w && arg2 == ident
 
 // BaseWorkUnit.Release: a nil result means the directory was removed (or removal was forced) and the unit's own ID
 // is no longer a key of activeUnits.
@@ -287,7 +305,7 @@ package workceptor
 //@   safetytags C04 C08
 //@   safety
 //@   requires w != nil && w.nc != nil
-//@   site mapupdate Workceptor.activeUnits RESCAN: [C13 C04] requires held(w.activeUnitsLock) == 2 && key == ident && value == worker && worker != nil
+//@   site mapupdate Workceptor.activeUnits RESCAN: [C13 C04] requires held(w.activeUnitsLock) == 2 && key == ident && value == worker && worker != nil && key == lastcall("Name", 0)
 //@   site call newWorkerFunc SAMETYPE: [C04] requires arg2 == ident && arg3 == sfd.WorkType && arg1 == w
 //@   site call newUnknownWorker SAMETYPE2: [C04] requires arg1 == ident && arg2 == sfd.WorkType && arg0 == w
 //@   site call Load@1 RECORD: [C04] requires arg1 == path.Join2(unitdir, "status") && arg0 == sfd
@@ -324,6 +342,10 @@ package workceptor
 //@   tags C13
 //@   requires cw != nil
 //@   site call UpdateBasicStatus CANCELLED: [C13] requires arg0 == 4 && arg2 == -1 && lastcall("Signal", 0) == nil
+//@   ghostflag signalled set call:Signal
+//@   site call FindProcess PID: [C13] requires arg0 == ced.Pid
+//@   site call Signal INTERRUPT: [C13] requires arg0 == lastcall("FindProcess", 0)
+//@   ensures STOPS: [C13] result == nil ==> !ok || ced.Pid <= 0 || flag("signalled")
 
 // Release of a command unit: the unit is forgotten only through BaseWorkUnit.Release, after Cancel succeeded or force
 //@ func (*commandUnit).Release
@@ -388,7 +410,35 @@ package workceptor
 
 // a status query takes the unit index lock only inside findUnit (never around the per-unit status read)
 //@ func (*Workceptor).UnitStatus
-//@   tags C08
+//@   tags C08 C19
+//@   ensures REDACTEDVIEW: [C19] result.1 == nil ==> result.0 == lastcall("Status", 0) && lastcall("findUnit", 1) == nil
 //@   safetytags C08
 //@   safety nil
 //@   requires w != nil && w.nc != nil
+
+// the parameters of a remote unit are stored under the names they were submitted with (the TLS rule of
+// AllocateRemoteUnit looks at those names)
+//@ func (*remoteUnit).SetFromParams
+//@   tags C19
+//@   requires rw != nil
+//@   site mapupdate map[string]string ASSUBMITTED: [C19] requires (key in params) && value == params[key]
+
+// every status / list response is built from UnitStatus (the redacted view), never from the raw record
+//@ func (*Workceptor).unitStatusForCFR
+//@   tags C19
+//@   requires w != nil && w.nc != nil
+//@   site call UnitStatus THEUNIT: [C19] requires arg1 == unitID
+//@   site call ValueOf FROMVIEW: [C19] requires lastcall("UnitStatus", 1) == nil && status == lastcall("UnitStatus", 0)
+//@   ensures ONLYVIEW: [C19] result.1 == nil ==> lastcall("UnitStatus", 1) == nil
+
+// the token a submitting node creates is addressed to exactly the given node, expires SigningExpiration after now
+// and is signed with the configured private key
+//@ func (*Workceptor).createSignature
+//@   tags C15
+//@   requires w != nil
+//@   site call LoadPrivateKey CONFIGUREDKEY: [C15] requires arg0 == w.SigningKey && w.SigningKey != ""
+//@   site call NewNumericDate EXPIRY: [C15] requires arg0 == exp
+//@   site call NewWithClaims CLAIMS: [C15] requires arg1 == box(claims) && len(claims.Audience) == 1 && claims.Audience[0] == nodeID && claims.ExpiresAt == lastcall("NewNumericDate", 0)
+//@   site call SignedString WITHKEY: [C15] requires arg1 == box(rsaPrivateKey) && lastcall("LoadPrivateKey", 1) == nil && arg0 == lastcall("NewWithClaims", 0)
+//@   ensures NOKEY: [C15] old(w.SigningKey) == "" ==> result.1 != nil
+//@   ensures SIGNED: [C15] result.1 == nil ==> result.0 == lastcall("SignedString", 0) && lastcall("SignedString", 1) == nil
